@@ -6,7 +6,7 @@ from concurrent.futures import ProcessPoolExecutor
 from tools.seedeval import patched_sources, run_one
 
 def main():
-    prop = sys.argv[1]
+    props = sys.argv[1:]
     seeds = sorted(os.path.dirname(p) for p in glob.glob('/verif/seeded/*/patch.diff'))
     twins = sorted(os.path.dirname(p) for p in glob.glob('/verif/twins_indep/*/patch.diff'))
     jobs = []
@@ -15,34 +15,39 @@ def main():
         if ov is not None:
             jobs.append((d, ov))
     with ProcessPoolExecutor(max_workers=15) as pool:
-        res = list(pool.map(run_one, [(prop, ov) for d, ov in jobs]))
+        res_all = {p_: list(pool.map(run_one, [(p_, ov) for d, ov in jobs])) for p_ in props}
     st = json.load(open('/verif/seeded/RESULTS.json'))
     tt = json.load(open('/verif/twins_indep/RESULTS.json'))
     changed = []
-    for (d, ov), (p, code, msg) in zip(jobs, res):
-        k = os.path.basename(d)
-        if '/seeded/' in d:
-            r = st[k]
-            before = (prop in r['caught_by'], prop in r['undecided'])
-            r['caught_by'] = sorted((set(r['caught_by']) - {prop}) | ({prop} if code == 1 else set()))
-            r['undecided'] = sorted((set(r['undecided']) - {prop}) | ({prop} if code == 2 else set()))
-            r['report'].pop(prop, None)
-            if code == 1:
-                r['report'][prop] = msg
-            if before != (code == 1, code == 2):
-                changed.append((k, before, code))
-        else:
-            r = tt[k]
-            before = r.get(prop)
-            r.pop(prop, None)
-            if code != 0:
-                r[prop] = code
-            if before != (code if code != 0 else None):
-                changed.append((k, before, code))
+    for prop in props:
+      res = res_all[prop]
+      for (d, ov), (p, code, msg) in zip(jobs, res):
+          k = os.path.basename(d)
+          if '/seeded/' in d:
+              if k not in st:
+                  m = json.load(open(os.path.join(d, 'meta.json')))
+                  st[k] = dict(target=m.get('property'), caught_by=[], undecided=[], report={})
+              r = st[k]
+              before = (prop in r['caught_by'], prop in r['undecided'])
+              r['caught_by'] = sorted((set(r['caught_by']) - {prop}) | ({prop} if code == 1 else set()))
+              r['undecided'] = sorted((set(r['undecided']) - {prop}) | ({prop} if code == 2 else set()))
+              r['report'].pop(prop, None)
+              if code == 1:
+                  r['report'][prop] = msg
+              if before != (code == 1, code == 2):
+                  changed.append((k, before, code))
+          else:
+              r = tt[k]
+              before = r.get(prop)
+              r.pop(prop, None)
+              if code != 0:
+                  r[prop] = code
+              if before != (code if code != 0 else None):
+                  changed.append((k, before, code))
     json.dump(st, open('/verif/seeded/RESULTS.json', 'w'), indent=1, sort_keys=True)
     json.dump(tt, open('/verif/twins_indep/RESULTS.json', 'w'), indent=1, sort_keys=True)
     for c in changed:
         print('changed', c)
-    print(len(jobs), 'evaluated for', prop, '-', len(changed), 'entries changed')
+    print(len(jobs), 'evaluated for', props, '-', len(changed), 'entries changed')
 
 main()
